@@ -11,7 +11,7 @@ import json, os, re, sys
 
 VERIF = os.path.dirname(os.path.dirname(os.path.abspath(__file__)))
 REPO = os.environ.get("VERIF_REPO", "/repo")
-BUILD = os.path.join(VERIF, "build")
+BUILD = os.environ.get("VERIF_BUILD") or os.path.join(VERIF, "build")
 MOD = "github.com/semihalev/sdns"
 
 # file -> list of (import path, replacement "alias path")
